@@ -275,7 +275,9 @@ func runDisk(env *Env) {
 	}
 	dr := &diskRun{env: env, ne: ne, dir: filepath.Join(env.TempDir(), "backup")}
 	var ds *diskSim
-	if variant == "wfault" || variant == "crashimg" {
+	if variant == "wfault" || variant == "crashimg" || variant == "backup" || variant == "backup_race" {
+		// in the backup variants the wrapper injects no fault: it only makes every write
+		// call below bufio a scheduling point (file writers run in several visitor workers)
 		ds = &diskSim{env: env, root: dr.dir}
 		if variant == "crashimg" {
 			ds.capture = true
@@ -535,6 +537,12 @@ func (dr *diskRun) checkBackup() {
 			}
 			ne2.handles[0] = map[int]*skiplist.Node{}
 			ne2.newSnapshot(fmt.Sprintf("restored phase %d", ph))
+		}
+		// cursor positioning on the restored instance (restored items carry bornSn 0)
+		for si := range ne2.snaps {
+			for k := -1; k <= ne2.nkeys; k++ {
+				ne2.execReaderOp("rr", Op{K: "seekscan", A: []int{si, k, 0}})
+			}
 		}
 		for _, r := range ne2.snaps {
 			ne2.closeOwner(r)
